@@ -716,11 +716,11 @@ fn main() {
     let mut id: u64 = 0;
 
     let mut rng = Rng::from_env(9);
-    fm_streams(&mut out, &mut rng, &mut id, 12_000 * mult);
+    fm_streams(&mut out, &mut rng, &mut id, 30_000 * mult);
     let mut rng = Rng::from_env(109);
-    qs_streams(&mut out, &mut rng, &mut id, 8_000 * mult);
+    qs_streams(&mut out, &mut rng, &mut id, 20_000 * mult);
     let mut rng = Rng::from_env(209);
-    mb_stream(&mut out, &mut rng, &mut id, 6_000 * mult);
+    mb_stream(&mut out, &mut rng, &mut id, 10_000 * mult);
     out.flush();
 
     let rt = tokio::runtime::Builder::new_multi_thread().worker_threads(8).enable_all().build().unwrap();
@@ -732,7 +732,7 @@ fn main() {
 
     // sv: one request per connection
     let mut rng = Rng::from_env(309);
-    for _ in 0..(2_500 * mult) {
+    for _ in 0..(6_000 * mult) {
         let rq = gen_req(&mut rng);
         let before = ctx.count(rq.ep);
         let a = single(addr, &rq);
@@ -744,7 +744,7 @@ fn main() {
     let before_pl = ctx.total();
     let mut ok_pl = 0usize;
     let mut sent_pl = 0usize;
-    for _ in 0..(250 * mult) {
+    for _ in 0..(600 * mult) {
         let k = rng.range(2, 8) as usize;
         let reqs: Vec<Req> = (0..k).map(|_| gen_req(&mut rng)).collect();
         let answers = run_conn(addr, &reqs, k);
